@@ -71,7 +71,7 @@ RULE = ("method cases: (container type, target expression, name from dir(type), 
         "map(attribute=), loop variable, macro parameter, do, call block, filter argument, namespace-"
         "held type] x sync/async x autoescape), enumerated completely in thorough for argument tuples "
         "that modify a copy (quick: one or two rotating paths and one sync/autoescape combination per "
-        "row, a twelfth of the non-modifying tuples); attribute-target cases: (28 statement forms that "
+        "row, a sixteenth of the non-modifying tuples); attribute-target cases: (28 statement forms that "
         "bind a name, written with an attribute target x 18 references [2 namespaces as controls, "
         "context dict/list/set/deque/object by name, set/with aliases, aliases of nested values and of "
         "filter results, loop variables, macro and call-block parameters] x 10 positions of the statement "
@@ -112,19 +112,19 @@ FLOORS = {
                            "defined_checks": 300, "autoescape_renders": 4500,
                            "filter_cases_autoescape": 3500, "via_map_cases": 900,
                            "assign_cases:tuple": 320, "assign_cases:nsinit": 66,
-                           "type_method_cases": 1000, "type_mutating_attempts": 600,
-                           "type_security_errors": 500,
-                           "type_method_cases:builtin-global": 25,
-                           "type_method_cases:context-exact-type": 200,
-                           "type_method_cases:context-subclass": 190,
-                           "type_method_cases:context-abc": 120,
-                           "type_method_cases:context-stdlib-subclass": 70,
-                           "type_method_cases:context-user-wrapper": 70,
-                           "type_method_cases:context-dict-of-types": 180,
-                           "type_method_cases:env-global": 190,
+                           "type_method_cases": 800, "type_mutating_attempts": 450,
+                           "type_security_errors": 390,
+                           "type_method_cases:builtin-global": 23,
+                           "type_method_cases:context-exact-type": 140,
+                           "type_method_cases:context-subclass": 140,
+                           "type_method_cases:context-abc": 90,
+                           "type_method_cases:context-stdlib-subclass": 55,
+                           "type_method_cases:context-user-wrapper": 55,
+                           "type_method_cases:context-dict-of-types": 140,
+                           "type_method_cases:env-global": 140,
                            "target_cases:container": 200, "target_block_set_cases": 160,
                            "target_namespace_controls_ok": 26, "target_forms_executing": 4,
-                           "type_defined_checks": 200}},
+                           "type_defined_checks": 68}},
     "thorough": {"evaluations": 60000, "distinct": 60000,
                  "counters": {"method_cases": 30000, "mutating_attempts": 8000,
                               "security_errors": 6000, "filter_cases": 30000,
@@ -522,7 +522,7 @@ def dry_run_type(si, tname, ti, mname, ai):
     if not callable(meth):
         return False
     D = make_data()
-    snap = copy.deepcopy(D)
+    snap = make_data()      # equal to a deep copy of D: checked once per shard in run()
     obj = TARGETS[tname][ti][1](D)
     args, kwargs = ARGPOOL[ai][1](D)
     try:
@@ -1089,14 +1089,14 @@ def run(ctx):
                         if ti > 0 and not mut:
                             continue
                         r = idx // ctx.nshards + ai + ctx.seed
-                        if quick and not mut and r % 12:
+                        if quick and not mut and r % 16:
                             continue
-                        if quick and ti > 0 and r % 3:
+                        if quick and ti > 0 and r % 4:
                             continue
                         if quick:
-                            # one path per row, a second one on every other mutating row, rotating
+                            # one path per row, a second one on every fourth mutating row, rotating
                             chosen = [tpaths[r % npaths]] + \
-                                ([tpaths[(r + 5) % npaths]] if mut and r % 2 else [])
+                                ([tpaths[(r + 5) % npaths]] if mut and r % 4 == 1 else [])
                         elif mut:
                             chosen = tpaths
                         else:
@@ -1118,6 +1118,8 @@ def run(ctx):
                 if ctx.mine(idx) and type_is_mutator(si, tname, mname):
                     for fi, form in enumerate(("dot", "attr", "alias")):
                         r = idx // ctx.nshards + ctx.seed + fi
+                        if quick and r % 3:
+                            continue
                         for is_async in (False, True):
                             if quick and is_async != (r % 2 == 0):
                                 continue
